@@ -269,9 +269,18 @@ def _playback(scratch, h: Harness):
     env = {"CARGO_TARGET_DIR": str(scratch.dir / "target")}
     rc, out, err, wall = run(cmd, cwd=scratch.repo, env=env, timeout=h.timeout + 900)
     m = re.search(r"```\n(.*?)```", out, re.S)
-    if not m:
+    synthesized = False
+    if m:
+        test = m.group(1)
+    elif re.search(r"^VERIFICATION:- FAILED", out, re.M):
+        # a harness without symbolic input (concrete table case): the failing "input" is
+        # the harness itself; run it natively with an empty value vector
+        synthesized = True
+        test = (f"#[test]\nfn kani_concrete_playback_{h.name}_noinput() {{\n"
+                f"    let concrete_vals: Vec<Vec<u8>> = vec![];\n"
+                f"    kani::concrete_playback_run(concrete_vals, {h.name});\n}}\n")
+    else:
         return {"confirmed": None, "log": (out + err)[-3000:], "values": None}
-    test = m.group(1)
     vals = re.findall(r"^\s*//\s*(.+)\n\s*vec!\[([0-9, ]*)\]", test, re.M)
     values = [{"as_int": a.strip(), "bytes": [int(x) for x in b.split(",") if x.strip()]} for a, b in vals]
     tname = re.search(r"fn (kani_concrete_playback_[A-Za-z0-9_]+)", test).group(1)
@@ -288,6 +297,8 @@ def _playback(scratch, h: Harness):
     elif re.search(r"test result: ok\. 1 passed", t2):
         confirmed = False
     panic = re.findall(r"panicked at ([^\n]*)\n([^\n]*)", t2)
+    if synthesized:
+        values = [{"as_int": "(no symbolic input: concrete case inside the harness)", "bytes": []}] if confirmed else None
     return {"confirmed": confirmed, "values": values, "test": test, "test_name": tname,
             "native_panic": [" ".join(p) for p in panic][:3],
             "playback_cmd": " ".join(cmd2), "log": t2[-2500:]}
